@@ -336,11 +336,11 @@ _save_cases = ([_save_node_case(Junction, iso) for iso in (False, True)] + [_sav
                 for (u, i) in ((LinkStatus.Open, LinkStatus.Active), (LinkStatus.Closed, LinkStatus.Active), (LinkStatus.Open, LinkStatus.Closed))])
 
 CONTRACTS = [
-    Contract(_q, P + ["C08", "C05", "C06"], _store_cases, models=amlmodel.build_models, sum_specs=_store_sum_specs,
+    Contract(_q, P + ["C08", "C05", "C06", "C02", "C07", "C16"], _store_cases, models=amlmodel.build_models, sum_specs=_store_sum_specs,
              trusted=["aml Var/Param .value is the solved value loaded into the model (DESIGN 2.5, C15)",
                       "RegInv (C14): wn.links()/junctions()/tanks()/reservoirs()/valves() enumerate exactly the registered elements; "
                       "get_links_for_node enumerates in(n)/out(n) exactly once"]),
-    Contract("wntr.sim.hydraulics:save_results", P + ["C06", "C08", "C16"], _save_cases, models=_coeff_model,
+    Contract("wntr.sim.hydraulics:save_results", P + ["C06", "C08", "C16", "C02", "C05", "C07"], _save_cases, models=_coeff_model,
              trusted=["RegInv (C14): typed iterators enumerate exactly the registered elements",
                       "HeadPump.get_head_curve_coefficients returns A>0, B>=0, C>0 (its own contract, C02)"]),
 ]
